@@ -996,14 +996,18 @@ def pad(tensor, padding, value=0.0):
                 tn.eye(pad[1], device=cores[k].device, dtype=cores[k].dtype)
             value = 1
     else:
-        rprod = np.prod(tensor.R)
-        value = value/rprod
-
         cores = [c.clone() for c in tensor.cores]
         for pad, k in zip(reversed(padding), reversed(range(len(tensor.N)))):
             cores[k] = tnf.pad(
-                cores[k], (0, 0, pad[0], pad[1], 0, 0), value=value)
-            value = 1 if value != 0 else 0
+                cores[k], (0, 0, pad[0], pad[1], 0, 0), value=0)
+
+        if value != 0:
+            # the constant fill is value * (1 - indicator of the original block), which raises the ranks by 2
+            pads = [(0, 0)]*(len(tensor.N)-len(padding)) + list(padding)
+            block = torchtt._tt_base.TT([tnf.pad(tn.ones((1, n, 1), dtype=c.dtype, device=c.device), (
+                0, 0, p[0], p[1], 0, 0)) for n, p, c in zip(tensor.N, pads, cores)])
+            padded = torchtt._tt_base.TT(cores)
+            return padded + value * (ones(padded.N, dtype=cores[0].dtype, device=cores[0].device) - block)
 
     return torchtt._tt_base.TT(cores)
 
